@@ -123,15 +123,18 @@ fn find_matching_bracket<'a>(
 }
 
 fn find_token_at_cursor(tokens: &[Token], index: usize) -> Option<(usize, &Token)> {
+    let is_bracket =
+        |token: &(usize, &Token)| is_opening_bracket(token.1) || is_closing_bracket(token.1);
+    let before = match index {
+        0 => None,
+        _ => find_token_at_index(tokens, index - 1),
+    };
+    // The bracket at the cursor, or else the bracket just before the cursor,
+    // whatever else stands at the cursor: "(a)|x" is on the ")" like "(a)| x"
     match find_token_at_index(tokens, index) {
-        Some(token) => Some(token),
-        _ => {
-            if index > 0 {
-                find_token_at_index(tokens, index - 1)
-            } else {
-                None
-            }
-        }
+        Some(token) if is_bracket(&token) => Some(token),
+        Some(token) => before.filter(is_bracket).or(Some(token)),
+        None => before,
     }
 }
 
